@@ -113,14 +113,15 @@ def run_c04(ctx, P):
         save = ctx.tier
         cases = build(ctx, r)
         # the sanitized build is ~10x slower: a sixth of the quick stream, an eighth of the thorough one
-        if name not in ("buffer", "alias"):
+        if name not in ("buffer", "alias", "aliasparse"):
             # every k-th case, so that every family of the stream (focused histories, detached copies, ...) is represented
             cases = cases[::(8 if ctx.tier == "thorough" else 6)] if len(cases) > 24 else cases
         # C04 is about abnormal outcomes only (sanitizer report, assertion, stray exception, broken
         # state invariant): a functional difference from the model belongs to the other properties,
         # so the model is not consulted here - except in the buffer stream, which is the tie of Impl.Buffer
         # (the model the C04 size theorems are about) to buffer.h / util.h
-        out = corr.compare_stream(ctx, name, cases, "asan", oracle_no_stray, known, timeout=1500, env=ASAN_ENV, impl_only=(name not in ("buffer", "alias")))
+        orc = oracle_no_stray if name != "aliasparse" else (lambda cmd, line: oracle_no_stray(cmd, line) or streams.oracle_aliasparse(cmd, line))
+        out = corr.compare_stream(ctx, name, cases, "asan", orc, known, timeout=1500, env=ASAN_ENV, impl_only=(name not in ("buffer", "alias")))
         res["violations"] += out["violations"]; res["known"] += [k for k in out["known"] if k not in res["known"]]
         res["coverage"].update({k + "@asan": v for k, v in out["coverage"].items()})
         ncmd += sum(len(c.lines) for c in cases)
